@@ -79,8 +79,12 @@ def gen_configs(tier, rng):
                  seed=rng.randrange(10**6))
         # (drawn from a separate stream: the configurations above stay the
         # ones earlier rounds were evaluated with)
-        c["prelude"] = random.Random(c["seed"]).choice(
-            [None, None, None, "inplace", "setter"])
+        r2 = random.Random(c["seed"])
+        c["prelude"] = r2.choice([None, None, None, "inplace", "setter"])
+        # maxit = 0: SciPy's bicgstab / cgs return the start field with
+        # info = 0 (gcrotmk raises inside SciPy, multigrid alone ignores it)
+        if ssl in ("bicgstab", "cgs") and r2.random() < 0.12:
+            c["maxit"] = 0
         if rng.random() < 0.03:
             c["given"] = "wrongdtype"
         if c["given"] == "none":
